@@ -899,8 +899,65 @@ impl World {
             }
         }
 
+        // --- structural single-rule mutations (uncle rules, two-phase commit): applied only when
+        // the context offers the material, otherwise the block stays valid
+        let mut recipe = recipe.clone();
+        let mut structural: Option<&'static str> = None;
+        match recipe.mutation.as_deref() {
+            Some("uncle_sibling") => {
+                // a block with the same parent and therefore the same number: not lower than the block
+                let n0 = self.blocks.len();
+                let sib = self.build_plain(parent, recipe.ts_delta + 7, recipe.seed ^ 0x51b1, vec![], vec![]);
+                let u = self.blocks[sib].view.as_uncle();
+                self.rollback_to(n0);
+                uncles = vec![u];
+                structural = Some("structural:uncle_sibling");
+            }
+            Some("uncle_duplicate") => {
+                if let Some(u) = uncles.first().cloned() {
+                    uncles = vec![u.clone(), u];
+                    structural = Some("structural:uncle_duplicate");
+                }
+            }
+            Some("uncle_double_inclusion") => {
+                // the parent block itself (already on the chain) or an uncle an ancestor included
+                let already = pst.chain.iter().rev().flat_map(|i| self.blocks[*i].view.uncles().into_iter()).find(|u| u.epoch().number() == ep.number && u.compact_target() == ep.compact);
+                if let Some(u) = already {
+                    uncles = vec![u];
+                    structural = Some("structural:uncle_double_inclusion");
+                } else if pblock.number > 0 && pblock.epoch.number == ep.number && pblock.view.compact_target() == ep.compact {
+                    uncles = vec![pblock.view.as_uncle()];
+                    structural = Some("structural:uncle_double_inclusion");
+                }
+            }
+            Some("commit_unproposed") => {
+                // a transaction whose inputs are live and mature but whose id is not in the window
+                let mut extra: Option<usize> = None;
+                for ti in order.iter() {
+                    let t = &self.txs[*ti];
+                    if win.contains(&t.id) || pst.txs.contains_key(&t.tx.hash()) || commits.contains(ti) {
+                        continue;
+                    }
+                    let ok = t.tx.inputs().into_iter().all(|i| cells.get(&i.previous_output()).map(|c| self.mature(c, frac)).unwrap_or(false))
+                        && t.tx.cell_deps().into_iter().all(|d| cells.contains_key(&d.out_point()))
+                        && t.tx.header_deps().is_empty();
+                    if ok {
+                        extra = Some(*ti);
+                        break;
+                    }
+                }
+                if let Some(ti) = extra {
+                    commits.push(ti);
+                    structural = Some("structural:commit_unproposed");
+                }
+            }
+            _ => {}
+        }
+        if matches!(recipe.mutation.as_deref(), Some("uncle_sibling" | "uncle_duplicate" | "uncle_double_inclusion" | "commit_unproposed")) {
+            recipe.mutation = structural.map(|s| s.to_string());
+        }
         let committed: Vec<MTx> = commits.iter().map(|i| self.txs[*i].clone()).collect();
-        self.assemble(parent, &pst, ep, ts, recipe, committed, proposals, uncles)
+        self.assemble(parent, &pst, ep, ts, &recipe, committed, proposals, uncles)
     }
 
     /// A child of `parent` with exactly the given proposals and commits (no uncles, no new txs).
@@ -1208,6 +1265,10 @@ pub fn mutate(
     rng: &mut simcore::Rng,
 ) -> (BlockBuilder, Option<String>) {
     let _ = (ts, number);
+    if m.starts_with("structural:") {
+        // the block was put together with a rule-breaking uncle list / commit list
+        return (bb, Some(m.into()));
+    }
     match m {
         "dao_c" => {
             let mut d = dao.clone();
